@@ -646,7 +646,13 @@ fn spawn_actor_k<const K: usize>(c: &str, o: &Op) -> Res {
                 HandleV::Addr(Box::new(actor.spawn_on_stream(stream).expect("spawn_on_stream")))
             }
         } else {
-            let base = hannibal::build(actor);
+            let mut base = hannibal::build(actor);
+            if cf.tmo >= 0 {
+                base = base.timeout(Duration::from_millis(cf.tmo as u64));
+            }
+            if cf.failto {
+                base = base.fail_on_timeout(true);
+            }
             let b = if cf.cap >= 0 { base.bounded_on_stream(cf.cap as usize, stream) } else { base.on_stream(stream) };
             if cf.owning { HandleV::Owning(Box::new(b.spawn_owning())) } else { HandleV::Addr(Box::new(b.spawn())) }
         }
